@@ -10,7 +10,7 @@ from vfw.core import Violation, must_return
 from vfw.model import topology as T
 
 PROPERTY = "C03"
-SIZES = {"quick": 1600, "thorough": 60000}
+SIZES = {"quick": 3200, "thorough": 60000}
 RULE = (
     "Hypothesis draws Kx x Ky faces (1-3 x 1-2; thorough up to 3x3) of N x N cells (N 2-4), periodic/open per "
     "direction, a D4 orientation per face (backtracking constructor over drawn preference orders keeps only "
